@@ -154,6 +154,12 @@ def gen_case(ch: Chooser, excl=(), placement=None, cwd=None):
                 files["proj/pages/sub/index.md"] = "title: Sub\n\nsub\n"
                 files["escaped.md"] = "title: Escaped\n\na page outside the page directory\n"
                 feats.append("ordered_subpage-escape")
+            if opts["page_dir"] == "./pages" and "page_symlink" not in excl and ch.bool(1, 4):
+                # a sub-directory of the page directory that is a symbolic link to shared documentation elsewhere
+                symlinks.append(["proj/pages/common", "../../common-docs"])
+                files["common-docs/index.md"] = "title: Common\n\nshared documentation\n"
+                files["common-docs/palette.txt"] = "colours\n"
+                feats.append("page-subdir-symlink")
             files["proj/pages/index.md"] = head + "\nText.\n"
             files["proj/pages/figs/x.png"] = "fig\n"
             files["proj/pages/more.md"] = "title: More\n\nmore\n"
